@@ -143,7 +143,15 @@ pub fn gen_case(rng: &mut Rng, c02: bool, thorough: bool) -> CrashCase {
     ids: 2 + rng.usize(3),
     transparent: rng.chance(1, 3),
   };
-  let nsessions = if c02 { 1 + rng.usize(4) } else { 1 };
+  // C01 too runs over disks that earlier crashes left behind (orphan files,
+  // leftover temp files, un-truncated logs)
+  let nsessions = if c02 {
+    1 + rng.usize(4)
+  } else if rng.chance(1, 2) {
+    1
+  } else {
+    2 + rng.usize(2)
+  };
   let mut sessions = Vec::new();
   let mut ver_base = 1u64;
   for s in 0..nsessions {
